@@ -4,11 +4,11 @@ Bound == Modelled(doc)
 \* edit depth per family (cfg: MaxLevel <- ...)
 Depth1(f) == 1
 QuickDepth(f)    == IF f \in {"comp"} THEN 3 ELSE IF f \in {"core"} THEN 1 ELSE 2
-EmitDepth(f)     == IF f \in {"comp", "pins"} THEN 2 ELSE 1
+EmitDepth(f)     == IF f \in {"core"} THEN 1 ELSE 2
 ThoroughDepth(f) == IF f \in {"comp"} THEN 4 ELSE IF f \in {"core"} THEN 2 ELSE 3
-ThoroughEmit(f)  == IF f \in {"comp"} THEN 3 ELSE 2
+ThoroughEmit(f)  == IF f \in {"comp", "pins"} THEN 3 ELSE 2
 View == vars
 \* one JSON line per document: the abstract text, the verdict and -- for well-formed documents -- the reactor it describes
-EmitState == ~Modelled(doc) \/ PrintT(ToJson([fam |-> fam, doc |-> doc, verdict |-> V, act |-> act,
+EmitState == ~Modelled(doc) \/ PrintT(ToJson([fam |-> fam, doc |-> doc, verdict |-> V, why |-> Why(doc), act |-> act,
                             exp |-> IF V = "ok" THEN Expected(doc) ELSE [none |-> TRUE]]))
 =====================================================================================================
